@@ -637,7 +637,8 @@ def check_history(impl: Impl, cls: str, init, ops) -> list[dict]:
             bad(f'after {step} raw_text {t.raw_text!r} is not one {RULE_OF[cls]} token ({type(e).__name__}) while value is {t.value!r}')
             return False
         if not same_value(cls, t2.value, t.value) or (cls == 'BlockComment' and t2.indent != t.indent):
-            bad(f'after {step} raw_text {t.raw_text!r} means {t2.value!r} but value is {t.value!r}')
+            extra = f' (indent {t2.indent!r} vs {t.indent!r})' if cls == 'BlockComment' else ''
+            bad(f'after {step} raw_text {t.raw_text!r} means {t2.value!r} but value is {t.value!r}{extra}')
             return False
         return True
     kind, p, ind = init
